@@ -34,8 +34,8 @@ def taylor_terms(tau, eps_over):
     return n
 
 
-def trig_case(ctx, PL, drv, rng, name, cb, tier):
-    args = G.sample_args(rng, name, cb, tier)
+def trig_case(ctx, PL, drv, rng, name, cb, tier, args=None):
+    args = args or G.sample_args(rng, name, cb, tier)
     eb = bool(rng.random() < 0.6)
     out = G.call(PL, name, args, eb, eb, cb)
     ctx.count("gen:" + name)
@@ -65,8 +65,8 @@ def trig_case(ctx, PL, drv, rng, name, cb, tier):
             "sin" if name == "sine" else "cos", float(vals[j]), float(xs[j]), float(eps)), replay, found_input=bool(vals[j] > float(eps) * (1 + 1e-6)))
 
 
-def inv_case(ctx, PL, drv, rng, cb, tier):
-    args = G.sample_args(rng, "invert", cb, tier)
+def inv_case(ctx, PL, drv, rng, cb, tier, args=None):
+    args = args or G.sample_args(rng, "invert", cb, tier)
     eb = bool(rng.random() < 0.6)
     out = G.call(PL, "invert", args, eb, eb, cb)
     ctx.count("gen:invert")
@@ -177,6 +177,14 @@ def run(tier, seed):
         for cb in (True, False):
             for _ in range(10 if q else 60):
                 trig_case(ctx, PL, drv, rng, name, cb, tier)
+    # call histories: the same tau with a sequence of epsilons, cosine and sine alternating
+    for tau in ((10.0, 3.5) if q else (10.0, 3.5, 25.0, 1.0)):
+        for eps in (1e-2, 4e-7, 1e-10, 1e-9, 0.3):
+            for name in ("cosine", "sine"):
+                trig_case(ctx, PL, drv, rng, name, True, tier, args={"tau": tau, "epsilon": eps})
+    for kappa in (3.0, 2.0):
+        for eps in (0.3, 0.01, 0.1):
+            inv_case(ctx, PL, drv, rng, True, tier, args={"kappa": kappa, "epsilon": eps})
     for cb in (True, False):
         for _ in range(12 if q else 60):
             inv_case(ctx, PL, drv, rng, cb, tier)
